@@ -7,6 +7,7 @@ V: complete honest runs of all four types over the configuration space, every
    exact token layout (Messages.tla, with SHA-256 digests supplied next to the
    data) and validity under the issuer key (independent oracle)."""
 import vlib
+from checks import ages_common as ag
 from checks import verdicts_common as vc
 from checks import issuance_common as ic
 
@@ -18,7 +19,9 @@ def run(ctx):
     n, cases, kinds = ic.run(ctx, "C01", ["honest"])
     # Verdicts.tla: every history of honest and refused requests on ONE long-lived issuer (and one request object per issuer side)
     vn, vcases, vdepth = vc.run(ctx, ["t1issue", "t2issue", "t5issue", "t3issue"])
+    an, acases = ag.run(ctx, ['t5issue'])   # Ages.tla: one type-5 issuer over tens of thousands of requests
     return ctx.finish({
+        **ag.coverage(an, acases),
         "traces_validated_against_impl": n,
         "evaluations": len(cases),
         "distinct_nontrivial": ic.distinct(cases),
@@ -36,6 +39,8 @@ def run(ctx):
 
 
 def replay(ctx, path):
+    if vlib.json.load(open(path)).get("family") == "ages":
+        return ag.replay(ctx, path)
     if vlib.json.load(open(path)).get("family") == "verdicts":
         return vc.replay(ctx, path)
     return ctx.replay_case(path, "issuance", "Trace_Issuance", cfg="Trace_Issuance_C01.cfg")
